@@ -269,6 +269,10 @@ structure Quirks where
       exception: top-level tables created by the failed parse are deleted and the scope that
       was current at entry is current again -/
   programRollback : Bool := false
+  /-- the same-label DO hook of `BlockBase.match` first skips comments / includes / directives
+      (`add_comments_includes_directives`) so that they cannot hide a DO statement sharing the
+      label; they are kept with that statement or restored -/
+  hookSkipsComments : Bool := false
   deriving Repr, DecidableEq, Inhabited
 
 structure Table where
@@ -630,26 +634,34 @@ def endLabelCheck (cfg : Cfg) (sinf : Option NodeInfo) (inf : NodeInfo) (v : Loo
 
 inductive HookRes where
   | raise (e : Exc)
-  | append (t : Tree)
+  /-- objects to append to the content, newest first; then `continue` -/
+  | append (ts : List Tree)
   | proceed
 
+/-- (repaired variant) `leading = []; add_comments_includes_directives(leading, reader)` -/
+def hookLead (env : Env) (fuel : Nat) (st : St) : Except Exc (List Tree) × St :=
+  if env.tbl.quirks.hookSkipsComments then addCID env fuel [] st else (.ok [], st)
+
 /-- the `enable_do_label_construct_hook` prologue of every loop iteration -/
-def doHook (env : Env) (f : F) (cfg : Cfg) (v : LoopVars) (st : St) : HookRes × St :=
+def doHook (env : Env) (f : F) (fuel : Nat) (cfg : Cfg) (v : LoopVars) (st : St) : HookRes × St :=
   if cfg.doHook then
-    match cfg.start with
-    | none => (.raise .other, st)
-    | some sc =>
-      match f sc st with
-      | (.raise e, s1) => (.raise e, s1)
-      | (.none, s1) => (.proceed, s1)
-      | (.tree t, s1) =>
-        let inf := infoOf env.tbl t
-        if inf.hasStartLabel then
-          match v.startLabel with
-          | none => (.raise .other, s1)
-          | some sl =>
-            if sl = inf.startLabel then (.append t, s1) else (.proceed, restore t s1)
-        else (.proceed, s1.ev (.ghost .hookDrop))
+    match hookLead env fuel st with
+    | (.error e, s0) => (.raise e, s0)
+    | (.ok lead, s0) =>
+      match cfg.start with
+      | none => (.raise .other, s0)
+      | some sc =>
+        match f sc s0 with
+        | (.raise e, s1) => (.raise e, s1)
+        | (.none, s1) => (.proceed, restoreRc lead s1)
+        | (.tree t, s1) =>
+          if (infoOf env.tbl t).hasStartLabel then
+            match v.startLabel with
+            | none => (.raise .other, s1)
+            | some sl =>
+              if sl = (infoOf env.tbl t).startLabel then (.append (t :: lead), s1)
+              else (.proceed, restoreRc lead (restore t s1))
+          else (.proceed, restoreRc lead (s1.ev (.ghost .hookDrop)))
   else (.proceed, st)
 
 inductive Step where
@@ -698,10 +710,10 @@ def blockLoop (env : Env) (f : F) (cfg : Cfg) (classes : List Cls) (startT : Opt
     match classes[i]? with
     | none => (.done v false, st)
     | some cls =>
-      match doHook env f cfg v st with
+      match doHook env f k cfg v st with
       | (.raise e, s1) => (.raise e, s1)
-      | (.append t, s1) =>
-        blockLoop env f cfg classes startT startName k i { v with rc := t :: v.rc } s1
+      | (.append ts, s1) =>
+        blockLoop env f cfg classes startT startName k i { v with rc := ts ++ v.rc } s1
       | (.proceed, s0) =>
         match callCatch f cls s0 with
         | (.raise e, s1) => (.raise e, s1)
